@@ -8,6 +8,18 @@ VERIF = os.path.dirname(os.path.dirname(os.path.abspath(__file__)))
 
 SMALL = dict(MAX=4, BASE=2, UNDER=1, CHUNK=2)
 
+# model constructor order, and which extracted tables describe each type:
+# (canonical variants, nano enc owned, nano enc ref, nano dec owned, serde decl owned, serde decl ref)
+CANON = {
+    'Ordered': (['Replace', 'Insert', 'Delete', 'Swap'], 'OrderedChangeOwned', 'OrderedChangeRef', 'OrderedChangeOwned', 'OrderedChangeOwned', 'OrderedChangeRef'),
+    'UArrChange': (['InsertMany', 'RemoveMany', 'InsertFew', 'RemoveFew', 'InsertSingle', 'RemoveSingle'], 'UArrChangeOwned', 'UArrChangeRef', 'UArrChangeOwned', 'UArrChange', 'UArrChange'),
+    'UArrDiff': (['Replace', 'Modify'], 'UArrDiffOwned', 'UArrDiffRef', 'UArrDiffOwned', 'UArrInternal', 'UArrInternal'),
+    'UMapChange': (['InsertMany', 'RemoveMany', 'InsertSingle', 'RemoveSingle'], 'UMapChangeOwned', 'UMapChangeRef', 'UMapChangeOwned', 'UMapChange', 'UMapChange'),
+    'UMapDiff': (['Replace', 'Modify'], 'UMapDiffOwned', 'UMapDiffRef', 'UMapDiffOwned', 'UMapInternal', 'UMapInternal'),
+    'RMapChange': (['Insert', 'Remove', 'Change'], 'RMapChangeOwned', 'RMapChangeRef', 'RMapChangeOwned', 'RMapChangeOwned', 'RMapChangeRef'),
+    'RMapDiff': (['Replace', 'Modify'], 'RMapDiffOwned', 'RMapDiffRef', 'RMapDiffOwned', 'RMapInternalOwned', 'RMapInternalRef'),
+}
+
 def read(p):
     with open(os.path.join(REPO, p)) as f:
         return f.read()
@@ -292,17 +304,20 @@ def gen_lean(P):
     t.append(f'def replaceCost : Nat := {P["REP"]}\n')
     t.append(f'def insertCost : Nat := {P["INS"]}\n')
     t.append(f'def fewMax : Nat := {P["FEW_MAX"]}\n')
-    # tables: encode (variant name -> byte) in declaration order; decode (byte -> variant name)
-    for key, tb in P['tables'].items():
-        enc = tb['enc']
-        rows = ', '.join(f'("{v}", {b})' for v, b in enc.items())
-        t.append(f'def enc{key} : List (String × Nat) := [{rows}]\n')
-        if tb['dec']:
-            rows = ', '.join(f'({b}, "{v}")' for b, v in sorted(tb['dec'].items(), key=lambda kv: int(kv[0])))
-            t.append(f'def dec{key} : List (Nat × String) := [{rows}]\n')
-    for key, order in P['decl'].items():
-        rows = ', '.join(f'"{v}"' for v in order)
-        t.append(f'def decl{key} : List String := [{rows}]\n')
+    # numeric tables in the model's canonical constructor order (see CANON)
+    for name, (canon, encO, encR, decO, declO, declR) in CANON.items():
+        T = P['tables']; D = P['decl']
+        eo = [T[encO]['enc'].get(v, 255) for v in canon]
+        er = [T[encR]['enc'].get(v, 255) for v in canon]
+        de = [(int(b), canon.index(v)) for b, v in sorted(T[decO]['dec'].items(), key=lambda kv: int(kv[0])) if v in canon]
+        so = [D[declO].index(v) if v in D[declO] else 255 for v in canon]
+        sr = [D[declR].index(v) if v in D[declR] else 255 for v in canon]
+        t.append(f'/-- {name}: constructor order {canon} -/\n')
+        t.append(f'def nano{name}OwnedEnc : List Nat := {eo}\n')
+        t.append(f'def nano{name}RefEnc : List Nat := {er}\n')
+        t.append(f'def nano{name}OwnedDec : List (Nat × Nat) := [{", ".join(f"({b}, {k})" for b, k in de)}]\n')
+        t.append(f'def serde{name}OwnedIdx : List Nat := {so}\n')
+        t.append(f'def serde{name}RefIdx : List Nat := {sr}\n')
     t.append('end Gen\n')
     path = os.path.join(VERIF, 'lean/SdModel/Gen/Params.lean')
     return write_if_changed(path, ''.join(t))
